@@ -739,6 +739,67 @@ def render_python(prog):
 
 
 # ------------------------------------------------------------------------------------ descriptors and real hashes
+class Desc(tuple):
+    """descriptor ('T', function name, argument descriptors) of a task.  Interned (mkdesc): equal descriptors are one
+    object, compared and hashed by identity - the nested tuples of a long chain with g(t, t) links would otherwise be
+    walked once per path (exponentially many)."""
+    def __eq__(self, other):
+        return self is other
+
+    def __ne__(self, other):
+        return self is not other
+
+    def __hash__(self):
+        return self.uid
+
+    def __repr__(self):
+        return '%s#%d(%s)' % (self[1], self.uid, ', '.join(_short(a) for a in self[2]))
+
+
+def _short(a):
+    if isinstance(a, Desc):
+        return '%s#%d' % (a[1], a.uid)
+    if a[0] == 'tup':
+        return '(%s, %s)' % (_short(a[1]), _short(a[2]))
+    return str(a[1])
+
+
+def _akey(a):
+    if isinstance(a, Desc):
+        return ('D', a.uid)
+    if a[0] == 'tup':
+        return ('tup', _akey(a[1]), _akey(a[2]))
+    return a
+
+
+_DESCS = {}
+
+
+def mkdesc(fn, args):
+    key = (fn, tuple(_akey(a) for a in args))
+    d = _DESCS.get(key)
+    if d is None:
+        d = Desc(('T', fn, tuple(args)))
+        d.uid = len(_DESCS) + 1
+        _DESCS[key] = d
+    return d
+
+
+def desc_deps(d):
+    """the task descriptors directly inside the arguments of d"""
+    out = []
+
+    def walk(a):
+        if isinstance(a, Desc):
+            out.append(a)
+        elif a[0] == 'tup':
+            walk(a[1])
+            walk(a[2])
+    for a in d[2]:
+        walk(a)
+    return out
+
+
 def arg_desc(a, env):
     if 'c' in a:
         return ('c', a['c'])
@@ -797,11 +858,11 @@ def all_descs(prog):
         if op == 'ret':
             return
         if op == 'def':
-            d = ('T', node['fn'], tuple(arg_desc(a, env) for a in node['args']))
+            d = mkdesc(node['fn'], tuple(arg_desc(a, env) for a in node['args']))
             out.append(d)
             walk(node['k'], dict(env, **{node['var']: d}))
         elif op == 'compound':
-            d = ('T', node['name'], tuple(env[p] for p in node['params']))
+            d = mkdesc(node['name'], tuple(env[p] for p in node['params']))
             out.append(d)
             walk(node['body'], dict((p, env[p]) for p in node['params']))
             walk(node['k'], dict(env, **{node['var']: d}))
@@ -828,10 +889,10 @@ def builder_marks(prog):
         if op == 'ret':
             return
         if op == 'def':
-            d = ('T', node['fn'], tuple(arg_desc(a, env) for a in node['args']))
+            d = mkdesc(node['fn'], tuple(arg_desc(a, env) for a in node['args']))
             walk(node['k'], dict(env, **{node['var']: d}))
         elif op == 'compound':
-            d = ('T', node['name'], tuple(env[p] for p in node['params']))
+            d = mkdesc(node['name'], tuple(env[p] for p in node['params']))
             if node['body']['op'] == 'mark':
                 out[node['body']['n']] = d
             walk(node['body'], dict((p, env[p]) for p in node['params']))
@@ -902,7 +963,7 @@ def render_coq(prog, it):
         if op == 'ret':
             return '(Ret %s)' % coq_arg(node['arg'], env, it)
         if op == 'def':
-            d = ('T', node['fn'], tuple(arg_desc(a, env) for a in node['args']))
+            d = mkdesc(node['fn'], tuple(arg_desc(a, env) for a in node['args']))
             return '(Def (T %d [%s] fn_%s)\n %s)' % (it.desc_id(d), '; '.join(coq_arg(a, env, it) for a in node['args']),
                                                    node['fn'], walk(node['k'], dict(env, **{node['var']: d})))
         if op == 'mark':
@@ -916,7 +977,7 @@ def render_coq(prog, it):
             alts = '; '.join('(I %s, %s)' % (x, walk(br[x], env)) for x in sorted(br))
             return '(BValue %s (fun v => sel v [%s] (Ret (K 0))))' % (coq_arg(node['arg'], env, it), alts)
         if op == 'compound':
-            d = ('T', node['name'], tuple(env[p] for p in node['params']))
+            d = mkdesc(node['name'], tuple(env[p] for p in node['params']))
             cargs = '; '.join('(ATask %d)' % it.desc_id(env[p]) for p in node['params'])
             body = walk(node['body'], dict((p, env[p]) for p in node['params']))
             return '(Compound %d [%s]\n %s\n %s)' % (it.desc_id(d), cargs, body, walk(node['k'], dict(env, **{node['var']: d})))
@@ -950,7 +1011,7 @@ def seq_oracle(prog):
         if op == 'ret':
             return env, aval(node['arg'], env)
         if op == 'def':
-            d = ('T', node['fn'], tuple(arg_desc(a, dict((k, x[0]) for k, x in env.items())) for a in node['args']))
+            d = mkdesc(node['fn'], tuple(arg_desc(a, dict((k, x[0]) for k, x in env.items())) for a in node['args']))
             v = FNS[node['fn']](*[aval(a, env) for a in node['args']])
             log.append((d, v))
             return walk(node['k'], dict(env, **{node['var']: (d, v)}))
@@ -966,7 +1027,7 @@ def seq_oracle(prog):
             br = node['branches']
             return walk(br['*'] if '*' in br else br[str(v)], env)
         if op == 'compound':
-            d = ('T', node['name'], tuple(env[p][0] for p in node['params']))
+            d = mkdesc(node['name'], tuple(env[p][0] for p in node['params']))
             _, v = walk(node['body'], dict((p, env[p]) for p in node['params']))
             log.append((d, v))
             return walk(node['k'], dict(env, **{node['var']: (d, v)}))
@@ -1071,8 +1132,30 @@ def exec_argv(sc, jugdir_str, nwc=1, extra=()):
             '--wait-cycle-time', '0', '--will-cite'] + list(extra)
 
 
+_OPTS = {}
+
+
 def exec_options(sc, jugdir_str='dict_store', nwc=1, extra=()):
-    return jug.options.parse(exec_argv(sc, jugdir_str, nwc, extra))
+    """the parsed options of `jug execute <jugfile> --nr-wait-cycles nwc --wait-cycle-time 0 <extra>`; parsed by
+    jug.options.parse once per distinct command line (16 ms each), a fresh shallow copy per run"""
+    import copy
+    key = (sc.jugfile, jugdir_str, nwc, tuple(extra))
+    if key not in _OPTS:
+        _OPTS[key] = jug.options.parse(exec_argv(sc, jugdir_str, nwc, extra))
+    return copy.copy(_OPTS[key])
+
+
+class no_zero_sleep:
+    """--wait-cycle-time 0: jug calls time.sleep(0) in every wait cycle, which costs a scheduler round trip on a
+    busy machine; sleep(0) returns at once while `jug execute` runs in-process"""
+    def __enter__(self):
+        import time
+        self.time, self.orig = time, time.sleep
+        orig = self.orig
+        time.sleep = lambda s: None if not s else orig(s)
+
+    def __exit__(self, *a):
+        self.time.sleep = self.orig
 
 
 def real_execute(sc, store_or_path, via_main=False, nwc=1, extra=(), slack=None, fail=None):
@@ -1094,7 +1177,7 @@ def real_execute(sc, store_or_path, via_main=False, nwc=1, extra=(), slack=None,
     try:
         with jugrun.quiet() as (out, err):
             try:
-                with low_recursion(slack):
+                with no_zero_sleep(), low_recursion(slack):
                     if via_main:
                         jug.jug.main(['jug'] + exec_argv(sc, store_or_path, nwc, extra))
                     else:
